@@ -69,14 +69,15 @@ MergeAppend(ch, c) == IF Len(ch) > 0 /\ ch[Len(ch)] = c THEN ch ELSE Append(ch, 
 ECs == /\ Ev.e = "cs"
        /\ csAt' = Append(csAt, l)
        /\ reqs' = Append(reqs, [kind |-> Ev.kind, m |-> Ev.m, addr |-> Ev.addr, len |-> Ev.len,
-                                data |-> Ev.data, flush |-> Ev.flush, accepted |-> (Ev.kind = "write")])
+                                data |-> Ev.data, flush |-> Ev.flush, accepted |-> (Ev.kind = "write"),
+                                returned |-> FALSE])
        /\ chunks' = Append(chunks, <<>>) /\ notes' = Append(notes, <<>>)
        /\ expect' = Append(expect, <<>>) /\ firstAt' = Append(firstAt, 0)
        /\ win' = IF lerrAt # 0 THEN win \cup {Len(reqs) + 1} ELSE win
        /\ UNCHANGED <<img, rdQ, lastW, lerrAt, bad, badAt>>
 
 ERet == /\ Ev.e = "ret"
-        /\ reqs' = [reqs EXCEPT ![Ev.rid].accepted = Ev.ret]
+        /\ reqs' = [reqs EXCEPT ![Ev.rid].accepted = Ev.ret, ![Ev.rid].returned = TRUE]
         /\ UNCHANGED <<chunks, notes, expect, firstAt, csAt, img, rdQ, lastW, lerrAt, win, bad, badAt>>
 
 \* the first chunk message of a read was handed to the link from inside the API call: the request
@@ -87,9 +88,12 @@ ETx == /\ Ev.e = "tx"
        /\ UNCHANGED <<reqs, chunks, notes, expect, firstAt, csAt, img, lastW, lerrAt, win, bad, badAt>>
 
 \* the link driver reported an error (the library starts tearing the session down)
+\* (calls that are in progress at this moment overlap the tear-down just like calls that start
+\* during it: both are in the window of the known finding)
 ELerr == /\ Ev.e = "lerr"
          /\ lerrAt' = l
-         /\ UNCHANGED <<reqs, chunks, notes, expect, firstAt, csAt, img, rdQ, lastW, win, bad, badAt>>
+         /\ win' = win \cup {i \in DOMAIN reqs : ~reqs[i].returned}
+         /\ UNCHANGED <<reqs, chunks, notes, expect, firstAt, csAt, img, rdQ, lastW, bad, badAt>>
 
 \* a chunk message served by the device
 EUp == /\ Ev.e = "up"
@@ -149,7 +153,8 @@ ENote == /\ Ev.e = "note"
 
 Unfinished == {i \in DOMAIN reqs : reqs[i].accepted /\ notes[i] = <<>> /\ ~MaySup(i)}
 
-\* requests whose call started between the link error and the end of the disconnect notification:
+\* requests whose call was in progress at, or started between, the link error and the end of the
+\* disconnect notification:
 \* the library neither serves nor notifies them (known finding, KNOWN_FINDINGS.txt) -- reported
 \* under their own clause so that every other loss is still reported as such
 EDrop == /\ Ev.e = "drop"
